@@ -604,7 +604,29 @@ class _Linalg:
         nz = [t for t in v if isinstance(t, SymFloat) or t != 0.0]
         if len(nz) == 1:
             return abs(nz[0])
+        if core.OPAQUE_NORM[0] and isinstance(acc, SymFloat):
+            return _opaque_norm(nz)
         return acc.sqrt() if isinstance(acc, SymFloat) else math.sqrt(acc)
+
+
+def _opaque_norm(vals):
+    """Euclidean norm as a fresh real bounded by the max- and 1-norms (sound
+    over-approximation that keeps the path condition linear)."""
+    vals = [lift(t) for t in vals]
+    if any(t.k == NAN for t in vals):
+        return math.nan
+    if any(t.k != FIN for t in vals):
+        return math.inf
+    e = core.engine()
+    if e.mode != "sym":
+        return math.sqrt(sum(float(t) ** 2 for t in vals))
+    ab = [abs(t) for t in vals]
+    t = e.fresh_real("norm")
+    tot = ab[0]
+    for a in ab[1:]:
+        tot = tot + a
+    e.assume(z3.And(t <= tot.r, *[t >= a.r for a in ab]))
+    return SymFloat(FIN, t)
 
 
 _Proxy.linalg = _Linalg()
